@@ -51,6 +51,55 @@ def kernel_atom_CHI(valid, data, err, wt, model):
     return mk_fn('CHI', B(W, valid), B(W, data), B(W, err), B(W, wt), B(W, model))
 
 
+def unfold_kernels(p):
+    """the least-squares kernels written out as the weighted sums they stand for (their code is checked against these definitions by ALG-1 / ALG-3):
+    OS(d; w, a) = S(w a d) / S(w a a);  LRc(d; w, a, b) = (S(w b b) S(w a d) - S(w a b) S(w b d)) / (S(w a a) S(w b b) - S(w a b)^2).
+    Two fits that reach the same optimum by different routes (the scale of the 2-parameter solution, or the 1-parameter scale at the A_V of that
+    solution) then have one normal form."""
+    def f(a):
+        if a[0] == 'fn' and a[1] in ('OS', 'LRc') and all(x[0] == 'B' for x in a[2:]) and len({x[1] for x in a[2:]}) == 1:
+            lab = a[2][1]
+            S = lambda q: alg.sum_over(q, lab)
+            args = [Poly.from_key(x[2]) for x in a[2:]]
+            if a[1] == 'OS' and len(args) == 3:
+                d, w, pa = args
+                return S(w * pa * d) * S(w * pa * pa).pow(-1)
+            if a[1] == 'LRc' and len(args) == 4:
+                d, w, pa, pb = args
+                return (S(w * pb * pb) * S(w * pa * d) - S(w * pa * pb) * S(w * pb * d)) * (S(w * pa * pa) * S(w * pb * pb) - S(w * pa * pb).pow(2)).pow(-1)
+        return None
+    return alg.rebuild(p, f)
+
+
+def congruent(p, names=('CHI',)):
+    """one congruence step for uninterpreted functions: two applications whose arguments are pairwise equal (as decided by the zero test, which clears
+    denominators) are the same value, even when the arguments are spelled differently"""
+    atoms = [a for a in p.atoms() if a[0] == 'fn' and a[1] in names]
+    rep = {}
+    for i, a in enumerate(atoms):
+        for b in atoms[:i]:
+            if b in rep or a[1] != b[1] or len(a) != len(b):
+                continue
+            same = True
+            for x, y in zip(a[2:], b[2:]):
+                if x[0] != y[0] or (x[0] in ('B', 'L') and x[1] != y[1]):
+                    same = False
+                    break
+                if x[0] in ('P', 'B'):
+                    if not alg.is_zero(Poly.from_key(x[-1]) - Poly.from_key(y[-1]))[0]:
+                        same = False
+                        break
+                elif x != y:
+                    same = False
+                    break
+            if same:
+                rep[a] = b
+                break
+    if not rep:
+        return p
+    return alg.rebuild(p, lambda a: Poly.atom(rep[a]) if a in rep else None)
+
+
 class KernelCall:
     def __init__(self, name, args, node, where):
         self.name, self.args, self.node, self.where = name, args, node, where
@@ -235,6 +284,24 @@ def compare(ctx, rule, instance, where, code, ref_poly, ref_dims=None, facts=Non
                data={'reference': alg.show(ref_poly, 1000)})
         return True
     syms, fnames = alg.leaf_syms(rem)
+    if fnames & {'OS', 'LRc'}:
+        # two routes to the same least-squares optimum: compare with the kernels written out as the sums they stand for
+        try:
+            d2 = unfold_kernels(diff)
+            if facts is not None:
+                d2 = facts.simplify(d2)
+            z2, rem2 = alg.is_zero(d2)
+        except (RecursionError, ZeroDivisionError):
+            z2, rem2 = False, rem
+        if not z2:
+            try:
+                z2, rem2 = alg.is_zero(congruent(d2))
+            except (RecursionError, ZeroDivisionError):
+                pass
+        if z2:
+            ctx.ok(rule, instance, where, (detail_ok or ('identity holds: %s' % alg.show(ref_poly, 160))) + ' (least-squares kernels written out as weighted sums)',
+                   data={'reference': alg.show(ref_poly, 1000)})
+            return True
     if 'searchsorted' in fnames and 'lininterp' in fnames:
         # a hand-written linear interpolation against the library's: compare with the library's written out the same way
         try:
